@@ -524,6 +524,7 @@ class Grammar(Model):
         self._rule = SimpleNamespace(**rulemap)
         self._rulemap = self._rule.__dict__
         self.link(self)
+        self._check_include_cycles()
         self._calc_lookahead_sets()
         self._mark_left_recursion()
 
@@ -531,6 +532,34 @@ class Grammar(Model):
         if missing:
             msg = ' '.join(missing)
             raise GrammarError('unknown rules, no parser generated: ' + msg)
+
+    def _check_include_cycles(self) -> None:
+        # note: >rule stands for the right hand side of the rule, so a rule
+        #   that reaches itself through includes (as in a rule redefined
+        #   with @override over an include of itself) has no expansion
+        from .rulelike import RuleInclude
+
+        def included(model: Model) -> set[str]:
+            names: set[str] = set()
+            pending = [model]
+            while pending:
+                m = pending.pop()
+                if isinstance(m, RuleInclude):
+                    names.add(m.name)
+                pending.extend(c for c in m.children() if isinstance(c, Model))
+            return names
+
+        includes = {name: included(rule) for name, rule in self.rulemap.items()}
+        for name in includes:
+            reached: set[str] = set()
+            pending = list(includes[name])
+            while pending:
+                n = pending.pop()
+                if n == name:
+                    raise GrammarError(f'rule {name!r} includes itself')
+                if n not in reached:
+                    reached.add(n)
+                    pending.extend(includes.get(n, ()))
 
     def configure(self, config: ParserConfig | None = None, **settings: Any):
         self._config.merge_config(config)
